@@ -51,18 +51,7 @@ def showEv : Ev → String
 
 def showEvs (l : List Ev) : String := if l.isEmpty then "-" else ",".intercalate (l.map showEv)
 
-/-- the page oracle the model is run with: page k at `(k+1) * P` (page-aligned, pairwise disjoint).
-    Placement inside a page does not depend on the page's address as long as alignments divide the
-    page size, which the harness guarantees. -/
-def orcOf (P : Nat) : Nat → Nat := fun k => (k + 1) * P
-
-def locOf (P addr : Nat) : Option (Nat × Nat) := if P = 0 || addr < P then none else some (addr / P - 1, addr % P)
-
-def ofMEv (P : Nat) : Alloc.MEv → Ev
-  | .page addr len => .page (addr / P - 1) len (addr % P == 0) true
-  | .alloc addr sz al => .alloc (locOf P addr) sz al (al != 0 && addr % al == 0)
-  | .fail sz al => .fail sz al
-  | .free addr sz al => .free (locOf P addr) sz al
+open AllocSafe (orcOf locOf ofMEv)
 
 def log2? (n : Nat) : Option Nat := (List.range 40).find? fun k => 2 ^ k == n
 
